@@ -29,14 +29,15 @@ Definition proc_obs (e : event) : bool :=
 
 (* C09 "replaced by the PUBREL once PUBREC arrived": after Rx PUBREC id the processor's next
    observable move is SavePacket(Outgoing, PUBREL id), then Send(PUBREL id) *)
-Inductive pexp := XNone | XSave (id : N) | XTx (id : N).
+Inductive pexp := XInit | XNone | XSave (id : N) | XTx (id : N).   (* XInit: no packet received yet on this Client *)
 
 Definition pubrec_step (x : pexp) (e : event) : option pexp :=
   match e with
-  | ENew _ => Some XNone
+  | ENew _ => Some XInit
   | _ =>
     if proc_obs e then
       match x, e with
+      | XInit, _ => Some XNone
       | XNone, ERx (Pubrec id) => Some (XSave id)
       | XNone, _ => Some XNone
       | XSave id, ESave Outgoing (Pubrel id') r =>
